@@ -1,7 +1,8 @@
 """C11 Avalon-MM port: bursts and single accesses keep memory semantics."""
 import lib.compat  # noqa
 from hypothesis import strategies as st
-from lib.runner import Collector, hyp_search
+import copy
+from lib.runner import Collector, hyp_search, match_known
 from lib import avalon as av
 from lib.fastsim import HarnessError
 
@@ -102,7 +103,7 @@ def shards(tier, seed):
         mine = mine[k:] + mine[:k]
         if tier == "quick":
             mine = mine[:4]
-        out.append(dict(tier=tier, seed=seed * 1000 + i, idx=i, devs=mine, ncases=(150 if tier == "quick" else 3000)))
+        out.append(dict(tier=tier, seed=seed * 1000 + i, idx=i, devs=mine, ncases=(150 if tier == "quick" else 2500)))
     return out
 
 
@@ -118,7 +119,8 @@ def diff_selftest(cfg, stim, col):
 
 def run_shard(sh):
     col = Collector(ID)
-    violation = None
+    violations = []
+    seen = set()            # clauses already established in this shard: the search goes on for OTHER clauses on the remaining devices
     nself = 2 if sh["tier"] == "quick" else 6
     for di, cfg in enumerate(sh["devs"]):
         state = dict(n=0)
@@ -135,17 +137,102 @@ def run_shard(sh):
             col.stats["simulated_cycles"] = col.stats.get("simulated_cycles", 0) + run.cycles
             col.stats["beats_held_under_waitrequest"] = col.stats.get("beats_held_under_waitrequest", 0) + run.master.held_cycles
             col.stat_max("max_cycles_per_case", run.cycles)
-            return col.filter(fs)
-        found = hyp_search(t, stims(cfg, 6 if sh["tier"] == "quick" else 10), sh["seed"] * 100 + di, sh["ncases"], shrink=True)
+            return [f for f in col.filter(fs) if f["clause"] not in seen]
+        found = hyp_search(t, stims(cfg, 6 if sh["tier"] == "quick" else 10), sh["seed"] * 100 + di, sh["ncases"], shrink=False)
         if found:
             stim, fs = found
+            clause = fs[0]["clause"]
+            stim = minimise(cfg, stim, clause, col.known)
             _, fm, _ = evaluate(cfg, stim, backend="migen")
-            fm = col.filter(fm)
-            if not any(f["clause"] == fs[0]["clause"] for f in fm):
-                raise HarnessError("C11 finding %s does not reproduce on migen.sim" % fs[0]["clause"])
-            violation = dict(case=dict(cfg=cfg, stim=stim), findings=fm, confirmed_on="migen.sim")
-            break
-    return col.result(violation)
+            fm = [f for f in col.filter(fm) if f["clause"] == clause]
+            if not fm:
+                raise HarnessError("C11 finding %s does not reproduce on migen.sim" % clause)
+            violations.append(dict(case=dict(cfg=cfg, stim=stim), findings=fm, confirmed_on="migen.sim"))
+            seen.add(clause)
+    # one violation per shard can be returned; shards rotate through what they found so that every distinct clause is reported by some shard
+    return col.result(violations[sh["idx"] % len(violations)] if violations else None)
+
+
+def _simpler(cfg, stim):
+    """candidate simplifications of a stimulus, most drastic first (all stay inside the legal domain)"""
+    ops = stim["ops"]
+    off = av.word_offset(cfg)
+    full = (1 << (cfg["avl_dw"] // 8)) - 1
+    ratio = max(1, cfg["port_dw"] // cfg["avl_dw"])
+    for i in range(len(ops) - 1, -1, -1):
+        if len(ops) > 1:
+            c = copy.deepcopy(stim)
+            del c["ops"][i]
+            yield c
+    for key, val in (("ready", None), ("wlat", [3]), ("rlat", [5]), ("qmax", 8)):
+        if stim["slave"].get(key) != val:
+            c = copy.deepcopy(stim)
+            c["slave"][key] = val
+            yield c
+    if stim.get("idle_clear"):
+        c = copy.deepcopy(stim)
+        c["idle_clear"] = False
+        yield c
+    for i, op in enumerate(ops):
+        def variant(**kw):
+            c = copy.deepcopy(stim)
+            c["ops"][i].update(kw)
+            return c
+        if op["kind"] == "w":
+            n = len(op["data"])
+            for m in sorted(set([1, 2, n // 2, n - 1])):
+                if 1 <= m < n:
+                    yield variant(data=op["data"][:m], be=op["be"][:m], gaps=op["gaps"][:m])
+                    if m >= 2:          # drop beats from the front of the tail instead (keeps the last gaps)
+                        yield variant(data=op["data"][:1] + op["data"][n - m + 1:], be=op["be"][:1] + op["be"][n - m + 1:], gaps=[0] + op["gaps"][n - m + 1:])
+            for k in range(1, n):
+                g = op["gaps"][k]
+                for ng in sorted(set([0, g // 2, g - 1])):
+                    if 0 <= ng < g:
+                        yield variant(gaps=op["gaps"][:k] + [ng] + op["gaps"][k + 1:])
+            if op.get("later") != "hold":
+                yield variant(later="hold")
+            if any(b != full for b in op["be"]):
+                yield variant(be=[full] * n)
+            simple = [(0x0101010101010101010101010101010101 * (k + 1)) & ((1 << cfg["avl_dw"]) - 1) for k in range(n)]
+            if op["data"] != simple:
+                yield variant(data=simple)
+        else:
+            n = op["n"]
+            for m in sorted(set([1, 2, n // 2, n - 1])):
+                if 1 <= m < n:
+                    yield variant(n=m)
+            if op["be"] != full:
+                yield variant(be=full)
+        if op.get("gap"):
+            yield variant(gap=0)
+        if op.get("wait"):
+            yield variant(wait=False)
+        rel = op["addr"] - off
+        for na in sorted(set([rel % ratio, rel % (4 * ratio), rel // 2 - (rel // 2) % ratio + rel % ratio])):
+            if 0 <= na < rel:
+                yield variant(addr=off + na)
+
+
+def minimise(cfg, stim, clause, known, budget=500):
+    """greedy, deterministic, bounded by a number of evaluations (not by time): keep a simplification while the same clause still fires"""
+    left = [budget]
+
+    def fails(c):
+        left[0] -= 1
+        _, fs, _ = evaluate(cfg, c)
+        return any(f["clause"] == clause and match_known(known, f) is None for f in fs)
+    progress = True
+    while progress and left[0] > 0:
+        progress = False
+        for c in _simpler(cfg, stim):
+            if left[0] <= 0:
+                break
+            if fails(c):
+                stim = c
+                progress = True
+                break
+    return stim
 
 
 def replay(case):
